@@ -107,10 +107,11 @@ def signed_url(entity, msg, relay, alg, response=False, dest=None):
 def gen_cases(tier, seed):
     rng = random.Random(seed)
     cases = []
-    relays = ["", "/next", "a&b=c", "&Signature=AAAA", "ü ö", "line\nbreak", "%41", "+"]
+    # (the last ones: every character that some percent-encoders escape and others leave alone - the signer's and the verifier's must agree)
+    relays = ["", "/next", "a&b=c", "&Signature=AAAA", "ü ö", "line\nbreak", "%41", "+", "a~b-._", "safe*'()!", "sub;delims,$@:/?[]"]
     for alg in sorted(ALGS):
         for who in ("sp", "idp"):
-            rs = relays if tier == "thorough" else [relays[0]] + rng.sample(relays[1:], 2)
+            rs = relays if tier == "thorough" else [relays[0]] + rng.sample(relays[1:8], 2) + [relays[8 + (len(cases) % 3)]]
             for ri, relay in enumerate(rs):
                 cases.append({"id": "inputs-%s-%s-r%d" % (alg, who, ri), "sig": ["inputs", alg, who, ri], "kind": "inputs", "alg": alg, "who": who, "relay": relay})
     depth = 4 if tier == "quick" else 5
